@@ -47,6 +47,24 @@ class Run:
     def violation(self, sig, case):
         self.violations.append((sig, case))
 
+    def regressions(self, replay_fn):
+        """Seconds-long replay tier: every case under regressions/<prop>/ (shrunk reproductions of
+        fixed findings and of seeded defects) must satisfy the property now."""
+        import glob
+
+        n = 0
+        for path in sorted(glob.glob(os.path.join(VERIF_DIR, "regressions", self.prop, "*.json"))):
+            with open(path, encoding="utf-8") as f:
+                rec = json.load(f)
+            for case in rec.get("cases", []):
+                n += 1
+                self.evaluations += 1
+                self.nontrivial("regression:" + os.path.basename(path) + json.dumps(case, sort_keys=True))
+                bad = replay_fn(case)
+                if bad:
+                    self.violation("regression:" + os.path.basename(path), dict(case, regression=os.path.basename(path), detail=str(bad)[:300]))
+        self.labels["regression_cases"] = n
+
     # ------------------------------------------------------------------ output
     def write_replays(self):
         paths = []
